@@ -313,6 +313,12 @@ func genCmd(r *gen.Rand, w *World, extra bool) Cmd {
 			}
 		case 3:
 			c := Cmd{K: "urp", DB: p.db, RP: p.rp, M: r.Range(1, 3), X: "rename", Def: r.Chance(1, 4)}
+			if r.Chance(1, 6) {
+				c.M = 0 // the empty name: accepted when the command names the policy through the empty (default) name too
+				if r.Chance(2, 3) {
+					c.RP = 0
+				}
+			}
 			if r.Chance(1, 3) {
 				v := gen.Pick(r, sgdPool)
 				c.SGD = &v
@@ -674,6 +680,22 @@ func corpus() []*Case {
 			{K: "markrp", DB: 1, RP: 3}, {K: "urp", DB: 1, RP: 3, M: 1, X: "rename"}, {K: "urp", DB: 1, RP: 2, M: 3, X: "rename"},
 			{K: "droprp", DB: 1, RP: 3}, {K: "urp", DB: 1, RP: 2, M: 3, X: "rename"},
 			{K: "rmnode", ID: 1}, {K: "cdb", DB: 2}, {K: "cnode", H: 1, T: 1}, {K: "cnode", H: 2, T: 2}, {K: "cptv", DB: 2},
+		}),
+		// the empty policy name: the default policy can be renamed to "" (it is unreachable afterwards, the database has no default);
+		// doing it again with another default policy overwrites the first one, with its groups
+		scripted("rename-to-the-empty-name", 1, []Cmd{
+			{K: "cnode", H: 1, T: 1},
+			{K: "cdb", DB: 1, HasRP: true, RP: 1, D: i64(0), SGD: i64(Hour)},
+			{K: "crp", DB: 1, RP: 2, D: i64(0), SGD: i64(Hour)},
+			{K: "cmst", DB: 1, RP: 1, M: 1}, {K: "cmst", DB: 1, RP: 2, M: 1},
+			{K: "csg", DB: 1, RP: 1, TS: t10}, {K: "csg", DB: 1, RP: 2, TS: t10},
+			{K: "urp", DB: 1, RP: 1, M: 0, X: "rename"}, // refused: "" resolves to the default policy, which exists
+			{K: "urp", DB: 1, RP: 0, M: 0, X: "rename"}, // the default policy becomes ""
+			{K: "csg", DB: 1, RP: 0, TS: t10 + Hour},   // no default any more
+			{K: "urp", DB: 1, RP: 2, M: 0, X: "rename"}, // accepted now ("" resolves to nothing): overwrites the first ""
+			{K: "crp", DB: 1, RP: 3, D: i64(0), SGD: i64(Hour), Def: true},
+			{K: "urp", DB: 1, RP: 0, M: 0, X: "rename", Def: true},
+			{K: "droprp", DB: 1, RP: 0}, {K: "restore"}, {K: "crp", DB: 1, RP: 1, D: i64(0), SGD: i64(Hour), Def: true}, {K: "csg", DB: 1, RP: 0, TS: t10},
 		}),
 		// a store with expand-shards-enable: every node that really joins expands all groups inside the same command
 		scripted("join-expands-groups", 2, []Cmd{
